@@ -1,6 +1,6 @@
 """C11 - OffsetDateTime / OffsetDate / OffsetTime / ZonedDateTime keep instant, local time, offset, calendar in step.
 
-Model checking, four exhaustive parts over explicit finite alphabets, each in lock-step with the int model
+Model checking, five exhaustive parts over explicit finite alphabets, each in lock-step with the int model
 vf/models/offsetref.py:
 
   odt      breadth-first exploration (depth 2) of every operation sequence over an operation alphabet (with_offset,
@@ -9,6 +9,8 @@ vf/models/offsetref.py:
            States are canonicalised (local day, nanosecond of day, offset, calendar) and de-duplicated globally.
   zdt      the same for ZonedDateTime over (instant x zone x calendar) with +/- Duration, instants placed on and
            next to real transitions of the zones (offset must be re-derived from the zone).
+  zlocal   ZonedDateTime(local, zone, offset) around every transition of each zone (inside / just outside gaps and overlaps,
+           offsets before / after / unrelated): accepted exactly when the zone's offset at local - offset is that offset.
   zclock   histories: one ZonedClock over one FakeClock per history, EVERY sequence of <= 3 clock movements (advance to the
            next transition, advance back to 1 ns before the current interval, +/-1 ns, negative auto-advance, reset to
            instants on / next to real transitions) with every getter read after each movement, for the zones with
@@ -1111,6 +1113,65 @@ def _zdt_worker(args, acc):
 
 
 
+
+def zlocal_worker(args):
+    return guarded("zdt", _zlocal_worker, args, None)
+
+
+def _zlocal_worker(args, acc):
+    """ZonedDateTime(local, zone, offset) around EVERY transition of the zone up to 2040: locals inside the gap / overlap (first
+    ns, middle, last ns) and just outside it, each with the offset before, the offset after and two unrelated offsets.  The
+    value exists exactly when the zone's offset at (local - offset) is that offset; then it must show that instant, local
+    time, offset and calendar."""
+    tier, zidx, cal_ids = args
+    E = env()
+    rg = E.ranges
+    zid, zone = E.zones[zidx]
+    tr = zone_transitions(zone, 25567 * NSD, rg)
+    for t, ob, oa in tr:
+        if ob == oa:
+            continue
+        kind = "gap" if oa > ob else "overlap"
+        lo, hi = t + min(ob, oa) * R.NS_S, t + max(ob, oa) * R.NS_S
+        offs = [ob, oa]
+        for extra in (oa + 3600 if oa + 3600 <= R.OFFSET_MAX_S else oa - 3600, 0, ob - 1 if ob - 1 >= R.OFFSET_MIN_S else ob + 1):
+            if extra not in offs:
+                offs.append(extra)
+        for where, L in (("first", lo), ("middle", (lo + hi) // 2), ("last", hi - 1), ("before", lo - 1), ("after", hi)):
+            d, n = divmod(L, NSD)
+            for c in cal_ids:
+                if not rg.day_ok(c, d):
+                    continue
+                ldt = expected_date(d, c) + LocalTime.from_nanoseconds_since_midnight(n)
+                for o in offs:
+                    i = L - o * R.NS_S
+                    ok = rg.instant_ok(i) and offset_at(zidx, i) == o
+                    acc.count(states=1, transitions=1, evaluations=1)
+                    case = {"part": "zlocal", "zone": zid, "transition": t, "local_ns": L, "offset": o, "calendar": c}
+                    cls = "%s-%s" % (kind, where if where in ("before", "after") else "inside")
+                    try:
+                        v = ZonedDateTime(local_date_time=ldt, zone=zone, offset=mk_off(o))
+                    except Exception as e:  # noqa: BLE001
+                        if exc_origin(e) == "harness":
+                            raise
+                        if ok:
+                            acc.violation("C11/zdt/ctor-local-offset/refused-valid/%s" % cls, "ZonedDateTime(local=%d ns [%s %s of the %s at transition %d], "
+                                          "%s, offset %d s, %s) raised %s although the zone's offset at local - offset is %d s"
+                                          % (L, where, "ns" if where in ("first", "last") else "", kind, t, zid, o, c, type(e).__name__, o), case)
+                        else:
+                            acc.outcome("zdt ctor(local, zone, offset): refused (%s, offset not the zone's)" % kind)
+                        continue
+                    if not ok:
+                        acc.violation("C11/zdt/ctor-local-offset/accepted-invalid/%s" % cls, "ZonedDateTime(local=%d ns [%s of the %s at transition %d], %s, "
+                                      "offset %d s, %s) was accepted, but the zone's offset at local - offset = %d ns is %s"
+                                      % (L, where, kind, t, zid, o, c, i, offset_at(zidx, i) if rg.instant_ok(i) else "outside the Instant range"), case)
+                        continue
+                    acc.count(nontrivial=1)
+                    acc.outcome("zdt ctor(local, zone, offset): accepted (%s)" % cls)
+                    zdt_check(acc, v, R.Z(i, zidx, c), rg, case, False)
+    acc.note("zdt ctor sweep %s" % zid, {"transitions": len(tr)})
+    return acc
+
 # ------------------------------------------------------------------------------------------------ zclock: histories
 
 GETTERS = ("get_current_instant", "get_current_zoned_date_time", "get_current_offset_date_time", "get_current_local_date_time",
@@ -1466,6 +1527,12 @@ def run(ctx):
             ctx.merge_part("zdt", acc)
         ctx.note("zdt zones", ntr)
 
+    if not only or "zlocal" in only:
+        zl_cals = [c for c in (["ISO", "Julian", "Hebrew Civil"] if tier == "quick" else cal_ids) if c in E.cals]
+        jobs = [(tier, zidx, zl_cals) for zidx in range(len(E.zones))]
+        for acc in pmap(zlocal_worker, _rot(jobs, seed), ctx.procs):
+            ctx.merge_part("zdt ctor(local, zone, offset)", acc)
+
     if not only or "zclock" in only:
         zc_cals = ["Julian", "Hebrew Civil", "ISO"] if tier == "quick" else ["Julian", "Hebrew Civil", "ISO", "Badi"]
         zc_cals = [c for c in zc_cals if c in E.cals]
@@ -1523,6 +1590,9 @@ def replay(rec) -> bool:
         zidx = [z[0] for z in E.zones].index(zid)
         a = zdt_worker(("thorough", zidx, [case["init"][0]], [case["init"][2]], {case["init"][2]}))
         return bool(a.violations)
+    if part == "zlocal":
+        zidx = [z[0] for z in E.zones].index(case["zone"])
+        return bool(zlocal_worker(("thorough", zidx, [case["calendar"]])).violations)
     if part == "zclock":
         zidx = [z[0] for z in E.zones].index(case["zone"])
         a = zclock_worker(("thorough", zidx, case["calendar"], rec.get("seed", 0), max(1, len(case.get("sequence", [])))))
